@@ -165,6 +165,23 @@ Theorem C02_registered_is_newest_but_ghosts : forall roles ls s os t u u' a',
 Proof. exact registered_is_newest_but_ghosts. Qed.
 Print Assumptions C02_registered_is_newest_but_ghosts.
 
+(* ... who can receive: in every reachable state and for every step, an object that is not the registered object of its
+   address has no user message appended to its mailbox (only its own run takes the head), and stays unregistered *)
+Theorem C02_unregistered_object_receives_nothing : forall roles ls s os l s1 o v a,
+  krun roles kinit ls = Some (s, os) -> kstep roles s l = Some (s1, o) ->
+  get s v = Some a -> lookup (a_tok a) (registry s) <> Some v ->
+  exists a1, get s1 v = Some a1 /\ lookup (a_tok a1) (registry s1) <> Some v /\
+    seq a1 = (if consumes l v a then tl (seq a) else seq a).
+Proof. exact unregistered_object_receives_nothing. Qed.
+Print Assumptions C02_unregistered_object_receives_nothing.
+
+(* ... the same from ANY state, for an object registered under no address *)
+Theorem C02_unregistered_receives_nothing_step : forall roles s l s1 o v a,
+  kstep roles s l = Some (s1, o) -> get s v = Some a -> unregA s v ->
+  exists a1, get s1 v = Some a1 /\ unregA s1 v /\ seq a1 = (if consumes l v a then tl (seq a) else seq a).
+Proof. exact unregistered_receives_nothing_step. Qed.
+Print Assumptions C02_unregistered_receives_nothing_step.
+
 Example C02_handled_in_send_order_across_address_reuse_example :
   (* an actor is spawned under address 5 (object 2), launched, told 10, asked 11, handles both (serials 1 2), is terminated and
      unregisters; a new actor is spawned under address 5 (object 3), launched, told 12 and 13, handles both (serials 3 4) *)
